@@ -43,8 +43,10 @@ MUTANTS = [
                  "            if property_value:\n")]),
     dict(id='c02-body-size-signed', property='C02', also=['C04'],
          what='content header body size packed as signed 64-bit',
-         edits=[(H, "struct.pack('>HxxQ', commands.Basic.frame_id,",
-                 "struct.pack('>Hxxq', commands.Basic.frame_id,")]),
+         edits=[(H, "struct.pack('>HHQ', commands.Basic.frame_id, "
+                    "self.weight,",
+                 "struct.pack('>HHq', commands.Basic.frame_id, "
+                 "self.weight,")]),
     dict(id='c02-cluster-id-default-none', property='C02', also=['C14'],
          what='decoded header leaves unset string properties as empty '
               'string instead of None',
@@ -78,7 +80,8 @@ MUTANTS = [
                  "    long = struct.Struct('>L')")]),
     dict(id='c03-timestamp-subsecond-rounds', property='C03', also=['C04'],
          what='timestamps rounded to nearest second instead of truncated',
-         edits=[(E, "common.Struct.timestamp.pack(int(value.timestamp()))",
+         edits=[(E, "common.Struct.timestamp.pack(int(value.timestamp() "
+                    "// 1))",
                  "common.Struct.timestamp.pack(round(value.timestamp()))")]),
     # ---------------- C04
     dict(id='c04-swapped-slots', property='C04', also=['C14', 'C01'],
@@ -136,10 +139,11 @@ MUTANTS = [
                  "    frame_data = data_in[constants.FRAME_HEADER_SIZE:-1]")]),
     dict(id='c06-heartbeat-shortcut', property='C06', also=['C07'],
          what='heartbeat returned before the length / end-octet guards',
-         edits=[(F, "    if not frame_size and not is_heartbeat:",
+         edits=[(F, "    if not frame_size and not is_heartbeat and not "
+                    "is_empty_body:",
                  "    if is_heartbeat:\n        return 8, channel_id, "
                  "heartbeat.Heartbeat()\n\n    if not frame_size and not "
-                 "is_heartbeat:")]),
+                 "is_heartbeat and not is_empty_body:")]),
     dict(id='c06-amqp-anywhere', property='C06',
          what="protocol header detected by 'AMQ' prefix only",
          edits=[(F, "    if data_in[0:4] == constants.AMQP:",
@@ -377,9 +381,8 @@ MUTANTS = [
                  "                int(time.mktime(value.timetuple())))\n")]),
     dict(id='c15-fromtimestamp-local', property='C15',
          what='decoded via local fromtimestamp then labelled UTC',
-         edits=[(D, "        return 8, datetime.datetime.fromtimestamp("
-                    "ts_value,\n                                             "
-                    "     tz=datetime.timezone.utc)",
+         edits=[(D, "        return 8, _EPOCH + datetime.timedelta("
+                    "seconds=ts_value)",
                  "        return 8, datetime.datetime.fromtimestamp("
                  "ts_value).replace(\n            tzinfo=datetime.timezone."
                  "utc)")]),
